@@ -1,6 +1,6 @@
 (* Hist.v — the operations of a history beyond the core mutators of Model/Manip.v: the calls that are built on top
    of them (remove_insignificant_whitespace, ...).  No proofs here. *)
-From XotV Require Import Model.Base Model.Zipper Model.Access Model.Store Model.Manip Model.Unpretty.
+From XotV Require Import Model.Base Model.Zipper Model.Access Model.Store Model.Manip Model.Unpretty Model.Interning Model.NsTools.
 Open Scope N_scope.
 
 Inductive hop :=
@@ -21,4 +21,33 @@ Fixpoint hrun (st : xstate) (ops : list hop) : list (mout * xstate) :=
   match ops with
   | [] => []
   | o :: ops' => let '(st1, out) := hstep st o in (out, st1) :: hrun st1 ops'
+  end.
+
+(* ---------- histories that also touch the interning tables (create_missing_prefixes registers prefixes) ---------- *)
+Inductive top :=
+| TH (o : hop)
+| TCmp (n : N)           (* create_missing_prefixes(n) *)
+| TDedup (n : N).        (* deduplicate_namespaces(n) *)
+
+Definition tstep (nm : nsnames) (ts : tables * xstate) (o : top) : (tables * xstate) * mout :=
+  let '(t, st) := ts in
+  match o with
+  | TH o' => let '(st', out) := hstep st o' in ((t, st'), out)
+  | TCmp n =>
+      match create_missing_prefixes nm t st n with
+      | NOk t' st' => ((t', st'), MDone None)
+      | NErrNotElement => ((t, st), MErr ENotElement)
+      | NPanic => ((t, st), MPanic)
+      end
+  | TDedup n =>
+      match deduplicate_namespaces nm st n with
+      | Some st' => ((t, st'), MDone None)
+      | None => ((t, st), MPanic)
+      end
+  end.
+
+Fixpoint trun (nm : nsnames) (ts : tables * xstate) (ops : list top) : list (mout * (tables * xstate)) :=
+  match ops with
+  | [] => []
+  | o :: ops' => let '(ts1, out) := tstep nm ts o in (out, ts1) :: trun nm ts1 ops'
   end.
